@@ -12,7 +12,7 @@ REL = "matid/clustering/sbc.py"
 def run():
     rep = Report("C01")
     rep.trusted_base = ["z3 (quantified arrays/EPR-style formulas)", "pyvc symbolic executor"]
-    sections_parallel(rep, [("localize", _localize), ("clean", _clean), ("merge", _merge), ("cluster.init", _init)])
+    sections_parallel(rep, [("localize", _localize), ("clean", _clean), ("merge", _merge), ("cluster.init", _init), ("main", _main)])
     return rep
 
 
@@ -49,6 +49,35 @@ def _init(rep):
     from contracts import cluster_c13 as K
     from contracts.sbc_model import cluster_ctx
     run_fv(rep, "cluster.init.", cluster_ctx(), "Cluster.__init__", K.mk_init, K.post_init)
+
+
+def _main(rep):
+    """get_clusters: set-up on a copy, main loop (invariant: clusters built so far are well-formed; the set of unvisited atoms strictly shrinks),
+    then the pipeline merge -> localize -> clean by their contracts; ValueError path; input frame; seeded RNG"""
+    from contracts import sbc_main as M
+    from contracts.sbc_model import sbc_ctx
+    m = sbc_ctx()
+    old = {k: m.globals.get(k) for k in ("np", "PeriodicFinder")}
+    m.globals["np"] = M.NPs2()
+    m.globals["PeriodicFinder"] = M.PF
+
+    def mk(st, it):
+        a, k, c = M.mk(st, it)
+        st.ghost["ctx"] = c
+        return a, k, c
+
+    try:
+        M.PHASE["setup"] = True
+        run_fv(rep, "main.setup.", m, "SBC.get_clusters", mk, M.post, loops=M.LOOPS, contracts=M.CONTRACTS, raises=M.raises, max_paths=20000, expect_raise=True)
+        M.PHASE["setup"] = False
+        run_fv(rep, "main.", m, "SBC.get_clusters", mk, M.post, loops=M.LOOPS, contracts=M.CONTRACTS, raises=M.raises, max_paths=20000)
+    finally:
+        M.PHASE["setup"] = False
+        for k, v in old.items():
+            if v is None:
+                m.globals.pop(k, None)
+            else:
+                m.globals[k] = v
 
 
 def replay_key(ob):
